@@ -103,6 +103,9 @@ def main(cmd, args):
             m = json.load(open(mp))
             if not m.get('verified', {}).get('ok'):
                 continue
+            if m.get('not_caught'):
+                print(f'selftest-sensitivity {sid}: NOT CAUGHT (documented): {m["not_caught"][:160]}')
+                continue
             owner = m.get('detect_with') or m['property']
             scratch = f'/dev/shm/sens_{sid}'
             shutil.rmtree(scratch, ignore_errors=True)
